@@ -120,7 +120,7 @@ func init() {
 		ID: "C03",
 		Explanation: "Decided: R-EMPTYFLAG - where package schema branches on reflect.Value.IsZero(), what is done on the zero side is done only behind a flag of the property read as true (emptyIsDefault, Disabled) or for a kind that has nil: 0 and \"\" are discriminator values like any other. Decided: R-DISCROUTE - where Validate / Serialize choose the member for a struct value by its Go type, the choice is made only with DiscriminatorInlined false or under a branch on what was read out of the value (its discriminator); R-OBJ clause - a default is stored for an unset property only with the property's Disabled flag known false (tested there, or implied by the outcome of the helper that works the value out). Decided: R-JSONNUM - default values are not decoded into an untyped value without UseNumber; R-SUBOBJRULES - the value built for an unset sub-object is stored only where its presence rules hold. Decided: R-SUPPLIEDNONNIL - the producer side of R-UNSETNIL (see C01). Decided: R-UNSETNIL - presence of struct-mapped properties: nil pointer / slice / map and the zero value of a disabled property are unset, unexported fields are refused; R-REBUILT - constructor-only fields are never used without a test for the unfilled case. R-OBJ - the presence-rule evaluator is reached on every accepting path of ObjectSchema Unserialize / Validate / Serialize (map-based and struct-mapped " +
 			"branches); its set/unset dispatch, and the rejects for required, required_if, required_if_not and conflicts have the declared polarity; undeclared and non-string " +
-			"keys are rejected wherever supplied keys are walked; a value derived from GetDefaults() is stored only under a failed lookup of the same key (a supplied value is " +
+			"keys are rejected wherever supplied keys are walked; a value derived from GetDefaults() is stored only under a failed lookup of the same key and only with the Disabled flag of the property that key names found false (a supplied value is " +
 			"never overridden); a disabled property is never unserialized and the object code cannot bypass PropertySchema.Unserialize; the inline shorthand is guarded by " +
 			"len(properties) == 1 (R-MAPORDER/R-EXPLICIT in C04/C12); R-SYMM - one-of dispatch: the member's verdict decides on every operation, data is stripped of a " +
 			"non-inlined discriminator by copy, results get it back. R-NOCOERCE - as in C02 (Validate / Serialize do not coerce discriminators or fields). R-UNSETNIL - the presence function of struct-mapped objects can report a nil pointer, slice and map field as unset (what Unserialize leaves for an absent property). R-DISABLED - every PropertySchema method that hands data to its type (Unserialize, Validate, Serialize, data-mode ValidateCompatibility) returns a possibly-nil error only where Disabled is known false (branch on the flag, or a helper whose nil result implies it). NOT decided: the full truth table over interacting rule graphs and presence subsets.",
